@@ -37,6 +37,9 @@ def strat_page():
         table = LATIN[:draw(st.integers(5, len(LATIN)))] + [" "] + (ARABIC[:draw(st.integers(4, len(ARABIC)))] if arabic else [])
         tok_in = st.text(alphabet=[c for c in table if c != " "], min_size=1, max_size=5)
         tok_out = st.text(alphabet="XYZ?!é", min_size=1, max_size=3)
+        # format characters inside words (soft hyphen, zero-width joiners, direction marks, private use) and text
+        # that looks like markup (entity-like words are ordinary text to an OCR system)
+        tok_special = st.sampled_from(["a\u00adb", "\u200cx", "x\u200d", "q\u200fq", "\ue000", "\u2060w", "&lt", "&amp;lt;", "&#65;", "&copy", "<b>", "a&b"])
         tok_ar = st.text(alphabet=ARABIC, min_size=1, max_size=5) if arabic else tok_in
         tok_num = st.text(alphabet="0123", min_size=1, max_size=3)
         tok_delim = st.sampled_from([",", ".", "-", ":", '"', "،"])
@@ -48,11 +51,11 @@ def strat_page():
         def text_strategy():
             if arabic:
                 script = draw(st.sampled_from(["mixed", "mixed", "latin_only", "arabic_only"]))
-                token = {"mixed": st.one_of(tok_in, tok_ar, tok_out, tok_num, tok_delim, tok_punct),
+                token = {"mixed": st.one_of(tok_in, tok_ar, tok_out, tok_num, tok_delim, tok_punct, tok_special),
                          "latin_only": st.one_of(tok_lat, tok_punct, tok_num),
                          "arabic_only": st.one_of(tok_ar, tok_ar, tok_delim)}[script]
             else:
-                token = st.one_of(tok_in, tok_in, tok_in, tok_out, tok_num, tok_punct)
+                token = st.one_of(tok_in, tok_in, tok_in, tok_out, tok_num, tok_punct, tok_special)
             @st.composite
             def text(draw2):
                 kind = draw2(st.sampled_from(["normal", "normal", "normal", "none", "empty", "blank"]))
